@@ -7,7 +7,7 @@ PROFILE = {"publish": 6, "ack": 4, "inbound": 10, "connect": 10, "fault": 10, "r
 
 
 def keep(l):
-    return l.startswith(("rs ", "ev dial", "ev close", "ret ", "blocked", "close", "disconnect", "hang", "spin"))
+    return l.startswith(("rs ", "ev dial", "ev close", "ret ", "blocked", "close", "disconnect", "hang", "spin", "backoff"))
 
 
 def mon_redial(tr, sc):
@@ -36,8 +36,43 @@ def mon_redial(tr, sc):
     return out
 
 
+def mon_backoff(tr, sc):
+    """the wait ReadBackoff decides on (observed at its hook, never awaited): within the configured bounds [3 s, 20 s] for
+    an error that needs a reconnect, the maximum for a refusal, doubling on consecutive failures, blocking for ErrClosed"""
+    out = []
+    last, prev_wait, fails = None, None, 0
+    for i, (op, lines) in enumerate(tr):
+        f = op.split()
+        for l in lines:
+            if l.startswith("rs err "):
+                last = set(l.split()[2].split("+"))
+            elif l.startswith(("rs msg", "rs big")):
+                last, prev_wait = None, None
+            if l.startswith("ev dial ok"):
+                pass
+        if f and f[0] in ("adopt", "init"):
+            last, prev_wait = None, None
+        if f and f[0] == "backoff" and lines and lines[0].startswith("backoff ") and last is not None:
+            w = lines[0].split()[1]
+            if "closed" in last:
+                if w != "never":
+                    out.append(("backoff:closed", "ReadBackoff after ErrClosed gives `%s`, want a channel that blocks" % w))
+                continue
+            if not w.endswith("ms"):
+                continue
+            ms = int(w[:-2])
+            if any(t.startswith("refused") for t in last):
+                if ms != 20000:
+                    out.append(("backoff:refused", "ReadBackoff after a refused connect waits %d ms, ReconnectWaitMax is 20000 ms" % ms))
+            elif last & {"store", "corrupt", "other"}:
+                pass        # the connection may still be there (Persistence error): fixed 1 s
+            elif not (3000 <= ms <= 20000):
+                out.append(("backoff:bounds", "ReadBackoff after `%s` waits %d ms, outside [ReconnectWaitMin 3000, ReconnectWaitMax 20000]" % ("+".join(sorted(last)), ms)))
+    return out
+
+
 def run(ctx):
-    mon = lambda tr, sc: SC.mon_sanity(tr) + mon_redial(tr, sc)
+    mon = lambda tr, sc: SC.mon_sanity(tr) + mon_redial(tr, sc) + mon_backoff(tr, sc)
     v, stats, hist, samples, nd = SC.run_property(ctx, MODULE, PROFILE, 300, 5000, [mon], keep, length=(8, 30))
     return SC.finish(ctx, v, stats, hist, samples, nd,
                      "write failures by Publish/Subscribe/Ping/persisted publishes placed before, between and after the read routine's own "
@@ -45,4 +80,4 @@ def run(ctx):
                      "failures during dial, handshake and resend, consecutive failed connects; hang and busy-loop detection by goroutine states",
                      SC.SESSION_ASSUMPTIONS + ["partial: interleavings are those reachable by blocking goroutines at I/O boundaries (dial, CONNACK, conn.Write, "
                                                "read); preemption between two statements is covered by the Sync theorems only (A-atomic)",
-                                               "timers are not awaited: ReadBackoff bounds are a theorem about the modelled formula"])
+                                               "timers are not awaited: the idle time ReadBackoff decides on is observed at a hook and compared with the model and the bounds"])
